@@ -259,3 +259,30 @@ pub fn xml_records(toks: &[Value]) -> Vec<Value> {
     }
     out
 }
+
+/// a text cut into the atoms of the text alphabet of spec/Output.tla (placeholders for the characters TLC cannot
+/// print); a character outside the alphabet is an atom of its own
+pub fn text_atoms(t: &str) -> Vec<String> {
+    let mut out = vec![];
+    let mut rest = t;
+    while !rest.is_empty() {
+        if let Some(r) = rest.strip_prefix("&amp;") {
+            out.push("&amp;".to_string());
+            rest = r;
+        } else if let Some(r) = rest.strip_prefix("]]>") {
+            out.push("]]>".to_string());
+            rest = r;
+        } else {
+            let c = rest.chars().next().unwrap();
+            out.push(match c {
+                'ñ' => "<NT>".to_string(),
+                '€' => "<EU>".to_string(),
+                '\u{1}' => "<C1>".to_string(),
+                '\u{b}' => "<VT>".to_string(),
+                c => c.to_string(),
+            });
+            rest = &rest[c.len_utf8()..];
+        }
+    }
+    out
+}
